@@ -37,11 +37,85 @@ Definition page_ok (rev : bool) (U : list id) (off size : nat) (out : list id) :
 Definition sources_ok (qs : list (src * list id)) (out : list ids) : bool :=
   forallb (fun k => existsb (fun q => Nat.eqb (fst q) (snd k) && memb id_eqb (fst k) (snd q)) qs) out.
 
+(* ------------------------------------------------------------------ specification of the rest of the QPR
+   over exactly the answering shards (independent of the arrival order of the answers) *)
+Definition zsum (l : list Z) : Z := fold_right Z.add 0%Z l.
+Definition count_id (U : list id) (p : id -> bool) : Z := Z.of_nat (length (filter p U)).
+(* number of duplicates that the merge drops: all IDs minus distinct IDs *)
+Definition reps_total (U : list id) : Z := (Z.of_nat (length U) - Z.of_nat (length (nodupb U)))%Z.
+Definition reps_in_bucket (itv : N) (U : list id) (k : N) : Z :=
+  if N.eqb itv 0 then 0%Z
+  else (count_id U (fun i => N.eqb (bucket_of itv i) k) - count_id (nodupb U) (fun i => N.eqb (bucket_of itv i) k))%Z.
+Definition total_spec (U : list id) (xs : list extra) : Z :=
+  let T := wrap64 (zsum (map x_total xs)) in
+  if Z.ltb 0 T then wrap64 (T - reps_total U) else T.
+Definition hist_spec (itv : N) (U : list id) (xs : list extra) (k : N) : Z :=
+  wrap64 (zsum (map (fun x => hlookup (x_hist x) k) xs) - reps_in_bucket itv U k).
+Definition hist_keys_spec (itv : N) (U : list id) (xs : list extra) : list N :=
+  flat_map (fun x => map fst (x_hist x)) xs
+  ++ (if N.eqb itv 0 then [] else map (bucket_of itv) (filter (fun i => negb (Z.eqb (reps_in_bucket itv U (bucket_of itv i)) 0)) U)).
+Definition errs_spec (xs : list extra) : nat := fold_right Nat.add 0 (map x_errs xs).
+
+(* aggregation j, bin b: the containers the answering shards hold for it (with samples) *)
+Definition bin_parts (j : nat) (b : bin) (xs : list extra) : list sc :=
+  flat_map (fun x => match blookup (fst (nth j (x_aggs x) ([], 0%Z))) b with
+                     | Some h => [h] | None => [] end) xs.
+Definition nonempty_parts (l : list sc) : list sc := filter (fun h => negb (Z.eqb (sc_total h) 0)) l.
+Fixpoint zmin_list (d : Z) (l : list Z) : Z := match l with [] => d | [x] => x | x :: r => Z.min x (zmin_list d r) end.
+Fixpoint zmax_list (d : Z) (l : list Z) : Z := match l with [] => d | [x] => x | x :: r => Z.max x (zmax_list d r) end.
+Fixpoint zinsert (x : Z) (l : list Z) : list Z :=
+  match l with [] => [x] | y :: r => if Z.leb x y then x :: l else y :: zinsert x r end.
+Definition zsort (l : list Z) : list Z := fold_right zinsert [] l.
+Definition zlist_eqb := list_eqb Z.eqb.
+Definition bin_spec_ok (j : nat) (b : bin) (xs : list extra) (h : sc) : bool :=
+  let ps := bin_parts j b xs in
+  let ne := nonempty_parts ps in
+  Z.eqb (sc_total h) (zsum (map sc_total ne))
+  && Z.eqb (sc_sum h) (zsum (map sc_sum ne))
+  && Z.eqb (sc_ne h) (zsum (map sc_ne ps))
+  && Z.eqb (sc_min h) (zmin_list (sc_min new_sc) (map sc_min ne))
+  && Z.eqb (sc_max h) (zmax_list (sc_max new_sc) (map sc_max ne))
+  && zlist_eqb (zsort (sc_samples h)) (zsort (flat_map sc_samples ne)).
+Definition agg_keys (j : nat) (xs : list extra) : list bin :=
+  flat_map (fun x => map fst (fst (nth j (x_aggs x) ([], 0%Z)))) xs.
+Definition agg_spec_ok (j : nat) (xs : list extra) (a : agg) : bool :=
+  Z.eqb (snd a) (zsum (map (fun x => snd (nth j (x_aggs x) ([], 0%Z))) xs))
+  && forallb (fun bh => memb bin_eqb (fst bh) (agg_keys j xs) && bin_spec_ok j (fst bh) xs (snd bh)) (fst a)
+  && forallb (fun b => memb bin_eqb b (map fst (fst a))) (agg_keys j xs).
+Fixpoint aggs_spec_ok (j : nat) (xs : list extra) (l : list agg) : bool :=
+  match l with [] => true | a :: r => agg_spec_ok j xs a && aggs_spec_ok (S j) xs r end.
+
+Definition rest_spec_ok (rev : bool) (itv : N) (naggs : nat) (qs : list (src * list id)) (xs : list extra) (r : extra) : bool :=
+  let U := flat_map snd qs in
+  Z.eqb (x_total r) (total_spec U xs)
+  && forallb (fun k => Z.eqb (hlookup (x_hist r) k) (hist_spec itv U xs k)) (map fst (x_hist r) ++ hist_keys_spec itv U xs)
+  && forallb (fun k => memb N.eqb k (hist_keys_spec itv U xs)) (map fst (x_hist r))
+  && forallb (fun k => memb N.eqb k (map fst (x_hist r))) (hist_keys_spec itv U xs)
+  && Nat.eqb (length (x_aggs r)) naggs
+  && aggs_spec_ok 0 xs (x_aggs r)
+  && Nat.eqb (x_errs r) (errs_spec xs).
+
+(* canonical comparison of two merged rests (association lists in any order, samples as multisets) *)
+Definition sc_eqb (a b : sc) : bool :=
+  Z.eqb (sc_total a) (sc_total b) && Z.eqb (sc_sum a) (sc_sum b) && Z.eqb (sc_min a) (sc_min b)
+  && Z.eqb (sc_max a) (sc_max b) && Z.eqb (sc_ne a) (sc_ne b)
+  && zlist_eqb (zsort (sc_samples a)) (zsort (sc_samples b)).
+Definition agg_eqb (a b : agg) : bool :=
+  Z.eqb (snd a) (snd b)
+  && forallb (fun bh => match blookup (fst b) (fst bh) with Some h => sc_eqb (snd bh) h | None => false end) (fst a)
+  && forallb (fun bh => match blookup (fst a) (fst bh) with Some _ => true | None => false end) (fst b).
+Definition hist_eqb (a b : list (N * Z)) : bool :=
+  forallb (fun kc => memb N.eqb (fst kc) (map fst b) && Z.eqb (snd kc) (hlookup b (fst kc))) a
+  && forallb (fun kc => memb N.eqb (fst kc) (map fst a)) b.
+Definition extra_eqb (a b : extra) : bool :=
+  Z.eqb (x_total a) (x_total b) && hist_eqb (x_hist a) (x_hist b)
+  && list_eqb agg_eqb (x_aggs a) (x_aggs b) && Nat.eqb (x_errs a) (x_errs b).
+
 (* the tier that decides the response, or the error the response must be *)
-Inductive verdict := VErr (k : errk) | VOk (partial : bool) (qs : list (src * list id)).
+Inductive verdict := VErr (k : errk) | VOk (partial : bool) (qs : list (src * list id)) (xs : list extra).
 Definition tier_verdict (t : tier_res) : verdict :=
   match t with
-  | TOk p qs => VOk p qs
+  | TOk p qs xs => VOk p qs xs
   | TWantsOld => VErr EWantsOld
   | TTooManyFrac => VErr ETooManyFrac
   | TFail => VErr EOther
@@ -56,23 +130,48 @@ Definition verdict_of (p1 p2 : bool) (hot hotread cold : list shard) : verdict :
 Definition bools2 : list (bool * bool) := [(true, true); (true, false); (false, true); (false, false)].
 
 (* is the observed search outcome one the property allows, under scheduling choice (p1,p2)? *)
-Definition search_allowed (hot hotread cold : list shard) (off size : nat) (rev : bool)
+Definition search_allowed (hot hotread cold : list shard) (off size : nat) (rev : bool) (itv : N) (naggs : nat)
            (ffail : list src) (impl : sres) (pp : bool * bool) : bool :=
   match verdict_of (fst pp) (snd pp) hot hotread cold, impl with
   | VErr k, SErr k' => errk_eqb k k'
-  | VOk p qs, SOk p' out =>
+  | VOk p qs xs, SOk p' out r =>
       Bool.eqb p p'
       && page_ok rev (flat_map snd qs) off size (map fst out)
       && sources_ok qs out
+      && rest_spec_ok rev itv naggs qs xs r
       && (* a response with documents requested cannot be delivered when every fetch call failed *)
          negb (match out with [] => false | _ => forallb (fun k => memb Nat.eqb (snd k) ffail) out end)
-  | VOk p qs, SErr EFetch =>
+  | VOk p qs xs, SErr EFetch =>
       (* allowed only when the page is not empty and every page member can have been assigned to a
          store whose fetch call failed *)
       let U := flat_map snd qs in
       let page := filter (fun u => in_page off size (rank rev U u)) U in
       negb (match page with [] => true | _ => false end)
       && forallb (fun u => existsb (fun q => memb Nat.eqb (fst q) ffail && memb id_eqb u (snd q)) qs) page
+  | _, _ => false
+  end.
+
+(* ------------------------------------------------------------------ API level *)
+Definition ecode_eqb (a b : ecode) := match a, b with CNo, CNo | CPartial, CPartial => true | _, _ => false end.
+Definition gcode_eqb (a b : grpc_code) :=
+  match a, b with GInvalidArgument, GInvalidArgument | GInternal, GInternal => true | _, _ => false end.
+(* the API answer allowed for a search outcome the property allows: an error, or a response that is
+   complete (code NO, flag false: every shard of the deciding tier answered and no store reported a
+   soft error), or one that says it is partial (code PARTIAL_RESPONSE and flag true) *)
+Definition api_allowed (hot hotread cold : list shard) (off size : nat) (rev : bool) (itv : N) (naggs : nat)
+           (ffail : list src) (impl : api) (pp : bool * bool) : bool :=
+  match verdict_of (fst pp) (snd pp) hot hotread cold, impl with
+  | VErr ETooManyFrac, AOnlyError => true
+  | VErr EWantsOld, AErr GInvalidArgument => true
+  | VErr EOther, AErr GInternal => true
+  | VOk p qs xs, AResp flag code out r =>
+      Bool.eqb flag p && ecode_eqb code (if p then CPartial else CNo)
+      && (p || Nat.eqb (errs_spec xs) 0)
+      && search_allowed hot hotread cold off size rev itv naggs ffail
+           (SOk p out (mkX (x_total r) (x_hist r) (x_aggs r) (errs_spec xs))) pp   (* soft errors are not visible in a response *)
+  | VOk p qs xs, AErr GInternal =>
+      (negb p && negb (Nat.eqb (errs_spec xs) 0))
+      || search_allowed hot hotread cold off size rev itv naggs ffail (SErr EFetch) pp
   | _, _ => false
   end.
 
@@ -121,32 +220,83 @@ Definition docs_complete (req : list ids) (streams : list (src * list sdoc)) (ou
 (* ------------------------------------------------------------------ cases *)
 Inductive fres := FPanic | FOk (out : list doc).
 
+(* Documents(): out IDs = the requested IDs with consecutive repetitions collapsed; every document
+   empty or delivered by its own source (one of the stores) under its ID *)
+Fixpoint compress (l : list id) : list id :=
+  match l with
+  | [] => []
+  | x :: r => match r with y :: _ => if id_eqb x y then compress r else x :: compress r | [] => [x] end
+  end.
+Definition udocs_sound (orig : list id) (srcs : list src) (streams : list (src * list sdoc)) (out : list doc) : bool :=
+  list_eqb id_eqb (map (fun d => fst (fst d)) out) (compress orig)
+  && forallb (fun d => memb Nat.eqb (snd (fst d)) srcs
+                       && (N.eqb (snd d) 0 || memb N.eqb (snd d) (delivered streams (fst d)))) out.
+(* with well-behaved streams and no repeated ID: a document comes back non-empty exactly when some
+   store sent a non-empty one for it *)
+Definition some_delivered (srcs : list src) (streams : list (src * list sdoc)) (i : id) : bool :=
+  existsb (fun s => negb (N.eqb (snd (expected_doc streams (i, s))) 0)) srcs.
+Definition udocs_complete (orig : list id) (srcs : list src) (streams : list (src * list sdoc)) (out : list doc) : bool :=
+  list_eqb Bool.eqb (map (fun d => negb (N.eqb (snd d) 0)) out) (map (some_delivered srcs streams) orig).
+Definition canon_groups (orig : list id) (srcs : list src) : list (id * list src) := map (fun i => (i, srcs)) orig.
+
 Inductive case :=
-(* one Ingestor.Search against scripted stores; impl = error kind, or partial flag + returned IDs *)
-| CSearch (hot hotread cold : list shard) (off size : nat) (rev : bool) (ffail : list src) (impl : sres)
+(* one Ingestor.Search against scripted stores; impl = error kind, or partial flag + returned IDs +
+   the rest of the merged QPR (total, histogram, aggregations, number of soft errors).
+   With ShuffleReplicas the replicas of each shard are listed in the order they were called. *)
+| CSearch (hot hotread cold : list shard) (off size : nat) (rev : bool) (itv : N) (naggs : nat)
+          (ffail : list src) (impl : sres)
+(* the same through the real proxyapi Search / ComplexSearch handler: impl = the API answer *)
+| CApi (hot hotread cold : list shard) (off size : nat) (rev : bool) (itv : N) (naggs : nat)
+       (ffail : list src) (impl : api)
 (* the document stream of one FetchDocsStream (from Search, or called directly): requested IDs,
    the streams of the sources whose Fetch call succeeded in call order, documents read *)
 | CFetch (req : list ids) (streams : list (src * list sdoc)) (impl : fres)
+(* Ingestor.Documents: requested IDs, all sources, streams (call order), documents read *)
+| CDocs (orig : list id) (srcs : list src) (streams : list (src * list sdoc)) (impl : fres)
 (* the hot store's refusal predicate: impl = earlierThanOldestFrac(from) with OldestCT = oldest *)
 | CRefuse (oldest from : N) (impl : bool).
 
 Definition sres_agrees (m impl : sres) : bool :=
   match m, impl with
   | SErr a, SErr b => errk_eqb a b
-  | SOk p l, SOk p' l' => Bool.eqb p p' && list_eqb id_eqb (map fst l) (map fst l')
+  | SOk p l r, SOk p' l' r' => Bool.eqb p p' && list_eqb id_eqb (map fst l) (map fst l') && extra_eqb r r'
+  | _, _ => false
+  end.
+Definition api_agrees (m impl : api) : bool :=
+  match m, impl with
+  | AErr a, AErr b => gcode_eqb a b
+  | AOnlyError, AOnlyError => true
+  | AResp f c l r, AResp f' c' l' r' =>
+      Bool.eqb f f' && ecode_eqb c c' && list_eqb id_eqb (map fst l) (map fst l')
+      && extra_eqb (mkX (x_total r) (x_hist r) (x_aggs r) 0) (mkX (x_total r') (x_hist r') (x_aggs r') 0)
   | _, _ => false
   end.
 
 (* model output = implementation output (IDs; the source of a duplicated ID is any valid one) *)
 Definition case_agrees (c : case) : bool :=
   match c with
-  | CSearch hot hotread cold off size rev ffail impl =>
-      existsb (fun pp => sres_agrees (search_full isort (fst pp) (snd pp) hot hotread cold off size rev ffail) impl)
+  | CSearch hot hotread cold off size rev itv naggs ffail impl =>
+      existsb (fun pp => sres_agrees (search_full isort (fst pp) (snd pp) hot hotread cold off size rev itv naggs ffail) impl)
+              bools2
+  | CApi hot hotread cold off size rev itv naggs ffail impl =>
+      existsb (fun pp => api_agrees (api_of (search_full isort (fst pp) (snd pp) hot hotread cold off size rev itv naggs ffail)) impl)
               bools2
   | CFetch req streams impl =>
       match impl with
       | FPanic => false
       | FOk out => list_eqb doc_eqb (fetch req streams) out
+      end
+  | CDocs orig srcs streams impl =>
+      match impl with
+      | FPanic => false
+      | FOk out =>
+          (* the order of the sources inside an ID's group is a map iteration order of the real code:
+             compared when it cannot matter (well-behaved streams), up to which non-empty copy is taken *)
+          let g := canon_groups orig srcs in
+          negb (well_behaved (expand g) streams)
+          || (let m := documents g streams in
+              list_eqb id_eqb (map (fun d => fst (fst d)) m) (map (fun d => fst (fst d)) out)
+              && list_eqb Bool.eqb (map is_empty m) (map is_empty out))
       end
   | CRefuse oldest from impl => Bool.eqb (earlier_than_oldest oldest from) impl
   end.
@@ -154,14 +304,23 @@ Definition case_agrees (c : case) : bool :=
 (* implementation output satisfies the property *)
 Definition case_spec_ok (c : case) : bool :=
   match c with
-  | CSearch hot hotread cold off size rev ffail impl =>
-      existsb (search_allowed hot hotread cold off size rev ffail impl) bools2
+  | CSearch hot hotread cold off size rev itv naggs ffail impl =>
+      existsb (search_allowed hot hotread cold off size rev itv naggs ffail impl) bools2
+  | CApi hot hotread cold off size rev itv naggs ffail impl =>
+      existsb (api_allowed hot hotread cold off size rev itv naggs ffail impl) bools2
   | CFetch req streams impl =>
       match impl with
       | FPanic => false
       | FOk out =>
           docs_sound req streams out
           && (negb (well_behaved req streams) || docs_complete req streams out)
+      end
+  | CDocs orig srcs streams impl =>
+      match impl with
+      | FPanic => false
+      | FOk out =>
+          udocs_sound orig srcs streams out
+          && (negb (well_behaved (expand (canon_groups orig srcs)) streams) || udocs_complete orig srcs streams out)
       end
   | CRefuse oldest from impl =>
       (* refuses exactly the ranges that start before the oldest stored fraction (or when nothing is stored) *)
